@@ -172,12 +172,15 @@ type TermStore struct {
 	syms  map[string]*Term
 	ufs   map[string]string // name -> declaration
 	fresh int
+	defs  map[int][]*Term // witness term id -> definitional axioms (relevance-filtered at query time)
+	defSeen map[int]map[int]bool
+	reach map[int][]*Term
 	True  *Term
 	False *Term
 }
 
 func NewTermStore() *TermStore {
-	ts := &TermStore{tab: map[string]*Term{}, syms: map[string]*Term{}, ufs: map[string]string{}}
+	ts := &TermStore{tab: map[string]*Term{}, syms: map[string]*Term{}, ufs: map[string]string{}, defs: map[int][]*Term{}, defSeen: map[int]map[int]bool{}, reach: map[int][]*Term{}}
 	ts.True = ts.Bool(true)
 	ts.False = ts.Bool(false)
 	return ts
@@ -393,6 +396,25 @@ func (ts *TermStore) Eq(a, b *Term) *Term {
 			return ts.Bool(a.u == b.u)
 		}
 	}
+	if a.op == OInt2Bv && b.isConst() {
+		return ts.Eq(a.args[0], ts.IntC(b.sval()))
+	}
+	if a.op == OToReal && b.isConst() && b.sort == SReal {
+		a, b = b, a
+	}
+	if b.op == OToReal && a.isConst() && a.sort == SReal {
+		if !a.r.IsInt() {
+			return ts.False
+		}
+		n := b.args[0]
+		if n.op == OBv2Int && a.r.Sign() >= 0 && a.r.Num().IsUint64() && (n.args[0].sort.width() == 64 || a.r.Num().Uint64() <= mask(n.args[0].sort.width())) {
+			return ts.Eq(n.args[0], ts.BV(n.args[0].sort.width(), a.r.Num().Uint64()))
+		}
+		return ts.Eq(n, ts.intern(&Term{op: OConst, sort: SInt, r: new(big.Rat).Set(a.r)}))
+	}
+	if b.op == OInt2Bv && a.isConst() {
+		return ts.Eq(b.args[0], ts.IntC(a.sval()))
+	}
 	if a.sort == SBool {
 		if a.isConst() {
 			a, b = b, a
@@ -570,6 +592,34 @@ func (ts *TermStore) bvcmp(op Op, a, b *Term) *Term {
 	}
 	if a == b {
 		return ts.Bool(op == OBvUle || op == OBvSle)
+	}
+	// comparisons of an Int-valued conversion (int2bv n, n assumed in the int64 range) with a constant
+	// stay in integer arithmetic
+	if a.op == OInt2Bv && b.isConst() && a.sort == SBV64 {
+		n := a.args[0]
+		switch op {
+		case OBvSlt:
+			return ts.icmp(OILt, n, ts.IntC(b.sval()))
+		case OBvSle:
+			return ts.icmp(OILe, n, ts.IntC(b.sval()))
+		case OBvUlt:
+			if b.sval() >= 0 {
+				return ts.And(ts.icmp(OILe, ts.IntC(0), n), ts.icmp(OILt, n, ts.IntC(b.sval())))
+			}
+		case OBvUle:
+			if b.sval() >= 0 {
+				return ts.And(ts.icmp(OILe, ts.IntC(0), n), ts.icmp(OILe, n, ts.IntC(b.sval())))
+			}
+		}
+	}
+	if b.op == OInt2Bv && a.isConst() && b.sort == SBV64 {
+		n := b.args[0]
+		switch op {
+		case OBvSlt:
+			return ts.icmp(OILt, ts.IntC(a.sval()), n)
+		case OBvSle:
+			return ts.icmp(OILe, ts.IntC(a.sval()), n)
+		}
 	}
 	return ts.intern(&Term{op: op, sort: SBool, args: []*Term{a, b}})
 }
@@ -970,3 +1020,63 @@ type engineGapErr struct{ msg string }
 
 func engineGap(msg string) engineGapErr { return engineGapErr{msg} }
 func (e engineGapErr) Error() string    { return "encoder gap: " + e.msg }
+
+// Define attaches a definitional axiom to a witness term. The axiom is asserted only in
+// queries that mention the witness (directly or through other axioms).
+func (ts *TermStore) Define(w *Term, ax *Term) {
+	if ax.isTrue() {
+		return
+	}
+	m := ts.defSeen[w.id]
+	if m == nil {
+		m = map[int]bool{}
+		ts.defSeen[w.id] = m
+	}
+	if m[ax.id] {
+		return
+	}
+	m[ax.id] = true
+	ts.defs[w.id] = append(ts.defs[w.id], ax)
+	// any cached reachability that includes w is stale; simplest: drop the cache
+	if len(ts.reach) > 0 {
+		ts.reach = map[int][]*Term{}
+	}
+}
+
+// Axioms returns the definitional axioms relevant to t (transitively).
+func (ts *TermStore) Axioms(t *Term) []*Term {
+	if len(ts.defs) == 0 {
+		return nil
+	}
+	if r, ok := ts.reach[t.id]; ok {
+		return r
+	}
+	seenT := map[int]bool{}
+	seenA := map[int]bool{}
+	var out []*Term
+	stack := []*Term{t}
+	for len(stack) > 0 {
+		x := stack[len(stack)-1]
+		stack = stack[:len(stack)-1]
+		if seenT[x.id] {
+			continue
+		}
+		seenT[x.id] = true
+		if axs, ok := ts.defs[x.id]; ok {
+			for _, a := range axs {
+				if !seenA[a.id] {
+					seenA[a.id] = true
+					out = append(out, a)
+					stack = append(stack, a)
+				}
+			}
+		}
+		for _, a := range x.args {
+			if a.op != OConst && !seenT[a.id] {
+				stack = append(stack, a)
+			}
+		}
+	}
+	ts.reach[t.id] = out
+	return out
+}
